@@ -2,6 +2,7 @@
 matrices alike", the dtype of the images, reachability; not the homomorphism
 identities)."""
 from ..rules import numpy_rules as NP
+from ..rules import misc_rules as MI
 from ..rules import shape_rules as S
 from ..rules import dtype_rules as D
 from ..rules.common import u1
@@ -25,6 +26,7 @@ def run(ctx):
     ctx.do(NP.rule_clo1, [LIE, HOM])
     ctx.do(NP.rule_stk1, [LIE, HOM])
     ctx.do(D.rule_lk1, [LIE])
+    ctx.do(MI.rule_exp1, [LIE])
     ctx.do(u1, ENTRIES, min_functions=12)
     ctx.r.assume("that products go to products, determinants, preserved "
                  "forms, the Killing form and the inverse up to sign are "
